@@ -181,9 +181,25 @@ Section Sound.
     - destruct (exact_type x (ktype k)) eqn:Ex; [|discriminate]. injection Hg as <-. exact Ex.
   Qed.
 
+  (* which annotations the theorem is about: any predicate closed under taking sub-annotations
+     that excludes user validators; record nodes are handled by the hypothesis ok_record *)
+  Variable ok : ann -> bool.
+  Hypothesis ok_children :
+    forall a, ok a = true ->
+              match a with
+              | AList x | ASet x | ATupleU x | AMaybe x | AQual x => ok x = true
+              | ADict k v => ok k = true /\ ok v = true
+              | ATupleN l | AUnion l => forallb ok l = true
+              | AAnnotated _ (Some _) => False
+              | _ => True
+              end.
+
   Definition sound_at (a : ann) : Prop :=
-    plain a = true -> forall sig v, derive sig a = Ok v ->
+    ok a = true -> forall sig v, derive sig a = Ok v ->
     forall fuel x w, run E Sync fuel v x = OValid w -> has_type a w = true.
+
+  Hypothesis ok_record :
+    forall rk c fields, Forall (fun f => sound_at (fst (snd f))) fields -> sound_at (ARecord rk c fields).
 
   Lemma seq_sound exact dest wrap n self item co x out a
         (wrap_inj : forall p q, wrap p = wrap q -> p = q) :
@@ -219,18 +235,18 @@ Section Sound.
       destruct Hr as [ws [-> _]]. reflexivity.
     - (* ANakedDict *) injection Hd as <-. cbn [step] in Hr. apply map_accept in Hr.
       destruct Hr as [_ [y [kvs [pairs [_ [_ [_ [_ [_ ->]]]]]]]]]. reflexivity.
-    - (* AList *) cbn [plain] in Hp. destruct (derive sig a) as [v'|e] eqn:Ea; cbn [pbind] in Hd; [|discriminate].
+    - (* AList *) apply ok_children in Hp. destruct (derive sig a) as [v'|e] eqn:Ea; cbn [pbind] in Hd; [|discriminate].
       injection Hd as <-. cbn [step] in Hr.
       apply (seq_sound TList TList VList n _ _ _ _ _ a VList_inj') in Hr;
         [|intros xi wi Hi; apply (IHa Hp sig v' Ea n xi wi Hi)].
       destruct Hr as [ws [-> Hws]]. exact Hws.
-    - (* ASet *) cbn [plain] in Hp. destruct (derive sig a) as [v'|e] eqn:Ea; cbn [pbind] in Hd; [|discriminate].
+    - (* ASet *) apply ok_children in Hp. destruct (derive sig a) as [v'|e] eqn:Ea; cbn [pbind] in Hd; [|discriminate].
       injection Hd as <-. cbn [step] in Hr. apply set_accept in Hr.
       destruct Hr as [_ [y [xs [ws [_ [_ [_ [HF [_ ->]]]]]]]]]. cbn [has_type].
       apply forallb_forall. intros w0 Hw0. apply set_payload_in in Hw0. destruct Hw0 as [[]|Hw0].
       clear - HF Hw0 IHa Hp Ea. induction HF as [|xi wi xs ws Hh HF IHF]; [destruct Hw0|].
       destruct Hw0 as [<-|Hw0]; [apply (IHa Hp sig v' Ea n xi _ Hh) | apply IHF; exact Hw0].
-    - (* ADict *) cbn [plain] in Hp. apply andb_prop in Hp. destruct Hp as [Hpk Hpv].
+    - (* ADict *) apply ok_children in Hp. destruct Hp as [Hpk Hpv].
       destruct (derive sig a1) as [kv|e] eqn:Ek; cbn [pbind] in Hd; [|discriminate].
       destruct (derive sig a2) as [vv|e] eqn:Ev; cbn [pbind] in Hd; [|discriminate].
       injection Hd as <-. cbn [step] in Hr. apply map_accept in Hr.
@@ -244,7 +260,7 @@ Section Sound.
       apply forallb_forall. intros [k0 v0] Hin. cbn [fst snd].
       apply map_payload_entries in Hin. destruct Hin as [[[]|H1] [[]|H2]].
       rewrite (Hks _ H1), (Hvs _ H2). reflexivity.
-    - (* ATupleU *) cbn [plain] in Hp. destruct (derive sig a) as [v'|e] eqn:Ea; cbn [pbind] in Hd; [|discriminate].
+    - (* ATupleU *) apply ok_children in Hp. destruct (derive sig a) as [v'|e] eqn:Ea; cbn [pbind] in Hd; [|discriminate].
       injection Hd as <-. cbn [step] in Hr.
       apply (seq_sound TTuple TList VTuple n _ _ _ _ _ a VTuple_inj') in Hr;
         [|intros xi wi Hi; apply (IHa Hp sig v' Ea n xi wi Hi)].
@@ -255,7 +271,7 @@ Section Sound.
       injection Hd as <-. cbn [step] in Hr. apply ntuple_accept in Hr.
       destruct Hr as [y [xs [ws [Hg [Hlen [Hit [HF Hobj]]]]]]].
       unfold obj_stage in Hobj. injection Hobj as <-. cbn [has_type].
-      apply many_of_Forall2 in El. cbn [plain] in Hp.
+      apply many_of_Forall2 in El. apply ok_children in Hp.
       (* arity: the coerced value has exactly one item per field *)
       assert (Hxs : length xs = length vs).
       { cbn [pred_eval] in Hlen. unfold py_len, py_iter in *. destruct (unsub y); try discriminate;
@@ -276,7 +292,7 @@ Section Sound.
       destruct (many_of (derive sig) (a0 :: l0)) as [vs|e] eqn:El; cbn [pbind] in Hd; [|discriminate].
       injection Hd as <-. cbn [step] in Hr. apply union_accept in Hr.
       destruct Hr as [pre [v0 [post [Hvs [Hv0 _]]]]].
-      apply many_of_Forall2 in El. cbn [has_type plain] in *.
+      apply many_of_Forall2 in El. apply ok_children in Hp. cbn [has_type] in *.
       assert (Hin : In v0 vs) by (rewrite Hvs; apply in_or_app; right; left; reflexivity).
       clear Hvs. revert Hin Hp H. generalize dependent (a0 :: l0). intros l El.
       induction El as [|a v1 l vs1 Ha El' IHl]; intros Hin Hp HI; [destruct Hin|].
@@ -285,22 +301,46 @@ Section Sound.
       destruct Hin as [<-|Hin].
       + rewrite (HIa Hpa sig v1 Ha n x w Hv0). reflexivity.
       + rewrite (IHl Hin Hpl HIl). apply orb_true_r.
-    - (* AMaybe *) cbn [plain] in Hp. destruct (derive sig a) as [v'|e] eqn:Ea; cbn [pbind] in Hd; [|discriminate].
+    - (* AMaybe *) apply ok_children in Hp. destruct (derive sig a) as [v'|e] eqn:Ea; cbn [pbind] in Hd; [|discriminate].
       injection Hd as <-. cbn [step] in Hr. rewrite maybe_spec in Hr.
       destruct x; try discriminate.
       + destruct (run E Sync n v' x) as [w'| | | |] eqn:Ei; try discriminate. injection Hr as <-.
         cbn [has_type]. apply (IHa Hp sig v' Ea n x w' Ei).
       + injection Hr as <-. reflexivity.
     - (* ALiteral *) apply (literal_sound E sig vs vd (S n) x w Hd Hr).
-    - (* AAnnotated *) destruct v as [v0|]; [discriminate|]. discriminate.
-    - (* AQual *) cbn [plain] in Hp. cbn [has_type]. apply (IHa Hp sig vd Hd (S n) x w). cbn [run]. exact Hr.
-    - (* ARecord *) discriminate.
+    - (* AAnnotated *) destruct v as [v0|]; [apply ok_children in Hp; destruct Hp | discriminate].
+    - (* AQual *) apply ok_children in Hp. cbn [has_type]. apply (IHa Hp sig vd Hd (S n) x w). cbn [run]. exact Hr.
+    - (* ARecord *) apply (ok_record rk c fields H Hp sig vd Hd (S n) x w). cbn [run]. exact Hr.
     - (* AClass *) injection Hd as <-. cbn [step] in Hr. apply scalar_accept in Hr.
       destruct Hr as [_ [y [Hg [Hpr _]]]]. cbn [procs_apply] in Hpr. injection Hpr as <-.
       unfold gate in Hg. cbn [ktype] in Hg. destruct (exact_type x (TClass c)) eqn:Ex; [|discriminate].
       injection Hg as <-. exact Ex.
   Qed.
 End Sound.
+
+Lemma plain_children a : plain a = true ->
+  match a with
+  | AList x | ASet x | ATupleU x | AMaybe x | AQual x => plain x = true
+  | ADict k v => plain k = true /\ plain v = true
+  | ATupleN l | AUnion l => forallb plain l = true
+  | AAnnotated _ (Some _) => False
+  | _ => True
+  end.
+Proof.
+  destruct a; cbn [plain]; intros H; auto.
+  - apply andb_prop in H. exact H.
+  - destruct v; [discriminate | exact I].
+Qed.
+
+(* record-free annotations *)
+Theorem derive_sound_plain (E : env) :
+  (forall k x y, oracle E k x = Some y -> exact_type y (okind_type k) = true) ->
+  forall a, plain a = true -> forall sig v, derive sig a = Ok v ->
+  forall fuel x w, run E Sync fuel v x = OValid w -> has_type a w = true.
+Proof.
+  intros Ho. apply (derive_sound E Ho plain plain_children).
+  intros rk c fields _ Hp. discriminate.
+Qed.
 
 (* ---------- signature mode: nothing is coerced ---------- *)
 
